@@ -62,6 +62,8 @@ type input struct {
 	Only       *only    `json:"only,omitempty"`
 	MaxTrials  int      `json:"maxTrials"`
 	Seed       int64    `json:"seed,omitempty"` // content seed of a narrowed (replay) input
+	// Switches: which confirmed defects the probe found repaired on this tree (classification only)
+	Switches map[string]bool `json:"switches,omitempty"`
 }
 
 func (in input) seedFor(bi int) int64 {
@@ -80,7 +82,7 @@ func (in input) batchBytes() int {
 
 func (in input) narrowed(b []step, ns bool, be string, o *only, seed int64) input {
 	return input{Consts: in.Consts, Behaviours: [][]step{b}, NewState: []bool{ns}, Backends: []string{be},
-		PruneBatch: in.PruneBatch, Plain: in.Plain, Only: o, Seed: seed}
+		PruneBatch: in.PruneBatch, Plain: in.Plain, Only: o, Seed: seed, Switches: in.Switches}
 }
 
 func modeOf(outcome string) faultkv.Mode {
@@ -478,11 +480,14 @@ func (e *enumRun) classify(w *world, v violation, faultOp, mode string, sameProc
 		return "bloom-cache:stale-window-after-reorg-across-boundary"
 	}
 	if memSym {
-		// the in-memory filter ran ahead of a commit that failed; the damage stays in the process
-		// and is carried over a restart by the graceful-stop snapshot
+		// the in-memory filter ran ahead of a commit that failed; the damage stays in the process,
+		// is carried over a restart by the graceful-stop snapshot and reaches the disk through the
+		// later operations that are applied to the wrong filter position.  While the probe finds
+		// that defect open, every filter symptom of a trial with a failed store/revert is its
+		// consequence; once it is repaired such a symptom is something new.
 		for _, f := range w.everFailed {
 			if f == "store" || f == "revert" {
-				if sameProcessOnly || hasSnapshot(w) {
+				if sameProcessOnly || hasSnapshot(w) || !e.in.Switches["FixMemAfterCommit"] {
 					return "event-filter:mem-ahead-of-failed-commit:" + f
 				}
 			}
